@@ -166,6 +166,8 @@ class World(object):
             return isinstance(v, VObj) and v.cls == want[4:]
         if want.startswith('list['):
             return isinstance(v, (VSeq, VList))
+        if want.startswith('lock:'):
+            return isinstance(v, VLock)
         return True
 
     def coerce(self, ex, v, typ):
